@@ -352,7 +352,11 @@ class Xform(ast.NodeTransformer):
         dict a comprehension would give (element expression checked at a generic in-range index).  No invariant needed."""
         if n.orelse or _has_loop_escape(n.body) or not n.body:
             return None
-        body = [b for b in n.body if not (isinstance(b, ast.Expr) and isinstance(b.value, ast.Constant))]
+        def is_logger_call(b):
+            return isinstance(b, ast.Expr) and isinstance(b.value, ast.Call) and isinstance(b.value.func, ast.Attribute) \
+                and isinstance(b.value.func.value, ast.Name) and b.value.func.value.id in self.logger_names
+        # docstring-like constants and logger calls are dropped by the extraction anyway
+        body = [b for b in n.body if not (isinstance(b, ast.Expr) and isinstance(b.value, ast.Constant)) and not is_logger_call(b)]
         if not body:
             return None
         last = body[-1]
